@@ -29,22 +29,25 @@ theorem ideal_world_independent {W1 W2 : Type} (α : W1 → W2) (c1 : Cfg W1) (c
 /-- What is observed of a run: how the body was left (fell off the end, `return`, or cut by the
 fuel), the values computed in order (conditions, right-hand sides, field stores, the returned
 status), and the world up to chunking — unread source bytes, output bytes, consumed-byte count,
-whether the coroutine starved on a closed source (final status `$short read`), and the values
-computed while alive. -/
+the `this.…` fields, whether the coroutine starved on a closed source (final status
+`$short read`), and the values computed while alive. -/
 structure SplitObs where
   out : Out
   log : List Nat
   world : OW
-  deriving DecidableEq
 
 def obsC (r : Res CW) : SplitObs := ⟨r.out, r.st.log, r.st.w.abs⟩
 def obsO (r : Res OW) : SplitObs := ⟨r.out, r.st.log, r.st.w⟩
 
+instance : DecidableEq SplitObs := fun a b =>
+  decidable_of_iff (a.out = b.out ∧ a.log = b.log ∧ a.world = b.world)
+    ⟨fun h => by cases a; cases b; simp_all, fun h => by subst h; exact ⟨rfl, rfl, rfl⟩⟩
+
 /-- **split_independent_F3s.** For every coroutine body over the abstract statement language
 (`if`/`else if`, `while`, `break`/`continue` to any enclosing loop, `return`, `yield`, `var`,
 assignments incl. `op=` and `=?`, io-manipulation blocks) whose expression occurrences are
-interpreted (`interp`) as pure functions of the locals and of the values computed so far, the
-suspending built-ins `read_uXXYe?` (rows of `readMethods`), `skip?`/`skip_u32?`, `skip?(n: 1)`,
+interpreted (`interp`) as pure functions of the locals and of the `this.…` fields, stores to
+fields, the driver's reaction to a yielded status, the suspending built-ins `read_uXXYe?` (rows of `readMethods`), `skip?`/`skip_u32?`, `skip?(n: 1)`,
 `write_u8?`, or split-independent callees; for every chunked world `w` (any source bytes cut into
 any chunks incl. empty ones, any destination capacity pieces incl. zero-sized ones, any position
 in the stream), every fuel and initial locals:
@@ -58,7 +61,7 @@ Not in this class (and only sampled, harness sections C and D): code that peeks 
 `length()`/`available()` to take a fast path, `io_limit`/`io_bind` over a nested buffer, token
 I/O, the `p_<func>` switch text itself. -/
 theorem split_independent_F3s (n : Nat) (body : List Stmt) (interp : Nat → COp)
-    (hok : ∀ t, (interp t).OK) (comb : Nat → Nat → Nat) (fuel : Nat) (w : CW) (store0 : Store) :
+    (hok : ∀ t, (interp t).OK) (comb : Nat → Nat → Nat → Nat) (fuel : Nat) (w : CW) (store0 : Store) :
     obsC (run (savedSet n body) (chunkCfg interp comb) fuel (Task.block body) ⟨store0, w, []⟩) =
     obsO (run allSaved (oneCfg interp comb) fuel (Task.block body) ⟨store0, w.abs, []⟩) := by
   have h1 := saved_equiv_ideal n body (chunkCfg interp comb) fuel ⟨store0, w, []⟩
@@ -74,7 +77,7 @@ chunks and of the destination capacity into pieces are observed the same: same w
 the body, same computed values (observable state), same output bytes, same consumed-byte count,
 same final-status flag — namely those of the one-shot run. -/
 theorem split_independent_F3s_partitions (n : Nat) (body : List Stmt) (interp : Nat → COp)
-    (hok : ∀ t, (interp t).OK) (comb : Nat → Nat → Nat) (fuel : Nat) (bs : List UInt8)
+    (hok : ∀ t, (interp t).OK) (comb : Nat → Nat → Nat → Nat) (fuel : Nat) (bs : List UInt8)
     (src1 dst1 src2 dst2 : List Nat) :
     obsC (run (savedSet n body) (chunkCfg interp comb) fuel (Task.block body)
       ⟨fun _ => 0, initCW src1 dst1 bs, []⟩) =
@@ -88,7 +91,7 @@ split-independent operation of its caller (`COp.ext`): nested coroutine calls co
 induction over the call graph — Wuffs has no recursion — every finite hierarchy of F3s coroutines
 is covered.) -/
 theorem callee_split_independent (n : Nat) (body : List Stmt) (interp : List Nat → Nat → COp)
-    (hok : ∀ vals t, (interp vals t).OK) (comb : Nat → Nat → Nat) (fuel : Nat) :
+    (hok : ∀ vals t, (interp vals t).OK) (comb : Nat → Nat → Nat → Nat) (fuel : Nat) :
     (COp.ext (callExt (savedSet n body) body interp comb fuel)).OK := by
   intro vals w
   have h := split_independent_F3s n body (interp vals) (hok vals) comb fuel w (fun _ => 0)
@@ -150,27 +153,27 @@ example : resumables 3 exLoop = [0, 1] := by decide +kernel
 0, 1, 0, 1, 2 bytes) suspends ten times and ends as the one-shot run does: output
 `34 12 CB CC BB 33`, 8 bytes consumed, the last byte unread, left by `return`, not starved. -/
 example :
-    obsC (run (savedSet 3 exLoop) (chunkCfg exInterp (· + ·)) 40 (Task.block exLoop)
+    obsC (run (savedSet 3 exLoop) (chunkCfg exInterp (fun _ a b => a + b)) 40 (Task.block exLoop)
       ⟨fun _ => 0, initCW [1, 0, 2, 1, 3] [0, 1, 0, 1, 2] exBytes, []⟩) =
       ⟨Out.ret, [0x1234, 1, 1, 0, 0, 0x12CB, 0, 0xAABBCC, 1, 1, 0, 0, 0xAABB33, 0, 0x010203, 0, 0],
-       ⟨[0xFF], [0x34, 0x12, 0xCB, 0xCC, 0xBB, 0x33], 8, false,
-        [0x1234, 1, 1, 0x12CB, 0xAABBCC, 1, 1, 0xAABB33, 0x010203, 0, 0]⟩⟩ ∧
-    ((run (savedSet 3 exLoop) (chunkCfg exInterp (· + ·)) 40 (Task.block exLoop)
+       ⟨[0xFF], [0x34, 0x12, 0xCB, 0xCC, 0xBB, 0x33], 8,
+        ⟨[], 0, false, [0x1234, 1, 1, 0x12CB, 0xAABBCC, 1, 1, 0xAABB33, 0x010203, 0, 0], 0⟩⟩⟩ ∧
+    ((run (savedSet 3 exLoop) (chunkCfg exInterp (fun _ a b => a + b)) 40 (Task.block exLoop)
       ⟨fun _ => 0, initCW [1, 0, 2, 1, 3] [0, 1, 0, 1, 2] exBytes, []⟩).evs.filter (· == Ev.susp)).length = 10 := by
   decide +kernel
 
 /-- …whereas saving NOTHING is observably different on the same chunking (the property is not
 vacuous): the second output byte is then 00, not 12. -/
 example :
-    (obsC (run (fun _ => false) (chunkCfg exInterp (· + ·)) 40 (Task.block exLoop)
+    (obsC (run (fun _ => false) (chunkCfg exInterp (fun _ a b => a + b)) 40 (Task.block exLoop)
       ⟨fun _ => 0, initCW [1, 0, 2, 1, 3] [0, 1, 0, 1, 2] exBytes, []⟩)).world.out.take 2 = [0x34, 0x00] := by
   decide +kernel
 
 /-- A truncated source: starved (`dead`) in the middle of the 24-bit read, everything consumed. -/
 example :
-    (obsC (run (savedSet 3 exLoop) (chunkCfg exInterp (· + ·)) 40 (Task.block exLoop)
+    (obsC (run (savedSet 3 exLoop) (chunkCfg exInterp (fun _ a b => a + b)) 40 (Task.block exLoop)
       ⟨fun _ => 0, initCW [3, 1] [] (exBytes.take 4), []⟩)).world =
-      ⟨[], [0x34, 0x12, 0xCB], 4, true, [0x1234, 1, 1, 0x12CB]⟩ := by
+      ⟨[], [0x34, 0x12, 0xCB], 4, ⟨[], 0x12CB, true, [0x1234, 1, 1, 0x12CB], 0⟩⟩ := by
   decide +kernel
 
 end WuffsVerif.Props.C05
